@@ -639,7 +639,8 @@ impl Relations {
             let child_count = self.0.children_with_tokens().count();
             (
                 child_count,
-                if idx == 0 {
+                // A field without entries may still hold substvars, which need a separator too
+                if idx == 0 && self.0.children().next().is_none() {
                     vec![entry.0.green().into()]
                 } else {
                     vec![
